@@ -8,6 +8,11 @@ M = []
 def m(pid, name, path, old, new, count=1):
     M.append((pid, name, path, old, new, count))
 
+# Mutants that turned out to be equivalent under the contracts and were removed:
+#  C04 dnstype-restricted-ignored-when-permitted (differs only for a type that is both permitted and restricted),
+#  C05 repeat-min-zero-accepted (the heuristic never proposes a shortcut inside a {0,n} group),
+#  C09 rcode-match-ignores-type (differs only for the keyword NOERROR exception, a declared don't-care),
+#  C20 index-on-lowercased-copy (lower-casing Latin-1 text keeps every byte offset).
 # ---- C01
 m("C01", "window-loop-off-by-one", "lookup/shortcutstable.go",
   "for i := 0; i <= len(r.URLLowerCase)-shortcutLength; i++ {", "for i := 0; i < len(r.URLLowerCase)-shortcutLength; i++ {")
@@ -45,11 +50,7 @@ m("C04", "permitted-before-restricted-domains", "rules/network.go",
   "	if len(f.restrictedDomains) > 0 {\n		if isDomainOrSubdomainOfAny(domain, f.restrictedDomains) {\n			// Domain or host is restricted\n			// i.e. $domain=~example.org\n			return false\n		}\n	}\n",
   "	if len(f.permittedDomains) > 0 && isDomainOrSubdomainOfAny(domain, f.permittedDomains) {\n		return true\n	}\n\n	if len(f.restrictedDomains) > 0 {\n		if isDomainOrSubdomainOfAny(domain, f.restrictedDomains) {\n			// Domain or host is restricted\n			// i.e. $domain=~example.org\n			return false\n		}\n	}\n")
 m("C04", "ctags-not-sorted", "rules/rule.go", "	slices.Sort(permittedCTags)\n", "")
-m("C04", "dnstype-restricted-ignored-when-permitted", "rules/network.go",
-  "	for _, t := range f.restrictedDNSTypes {\n		if rtype == t {\n			return false\n		}\n	}\n\n	if len(f.permittedDNSTypes) > 0 {",
-  "	if len(f.permittedDNSTypes) == 0 {\n		for _, t := range f.restrictedDNSTypes {\n			if rtype == t {\n				return false\n			}\n		}\n	}\n\n	if len(f.permittedDNSTypes) > 0 {")
 # ---- C05
-m("C05", "repeat-min-zero-accepted", "rules/network.go", "return re.Min > 0 && regexpMustContain(re.Sub[0], s)", "return regexpMustContain(re.Sub[0], s)")
 m("C05", "alternate-any-branch", "rules/network.go",
   "		for _, sub := range re.Sub {\n			if !regexpMustContain(sub, s) {\n				return false\n			}\n		}\n\n		return true",
   "		for _, sub := range re.Sub {\n			if regexpMustContain(sub, s) {\n				return true\n			}\n		}\n\n		return false")
@@ -74,7 +75,6 @@ m("C08", "rewrites-ignore-badfilter", "dnsrewrite.go", "nrules = rules.RemoveBad
 m("C09", "exception-ignores-own-important", "dnsrewrite.go", "	if !excImportant && nr.IsOptionEnabled(rules.OptionImportant) {", "	if nr.IsOptionEnabled(rules.OptionImportant) {")
 m("C09", "value-compared-by-identity", "dnsrewrite.go", "reflect.DeepEqual(nrdnsr.Value, excdnsr.Value)", "nrdnsr.Value == excdnsr.Value")
 m("C09", "only-first-exception-applied", "dnsrewrite.go", "	for _, exc := range excs {\n		nrules = removeMatchingException(nrules, exc)\n	}", "	for _, exc := range excs[:1] {\n		nrules = removeMatchingException(nrules, exc)\n	}")
-m("C09", "rcode-match-ignores-type", "dnsrewrite.go", "		if excdnsr.RCode != dns.RcodeSuccess {\n			return true\n		}", "		if excdnsr.RCode != dns.RcodeSuccess || excdnsr.RRType == 0 {\n			return true\n		}")
 # ---- C10
 m("C10", "ptr-without-trailing-dot", "rules/dnsrewrite.go", "		fqdn = dns.Fqdn(valStr)", "		fqdn = valStr")
 m("C10", "a-handler-accepts-ipv6", "rules/dnsrewrite.go", "		} else if !ip.Is4() {\n			return nil, fmt.Errorf(\"%q is not a valid ipv4\", valStr)\n		}", "		}")
@@ -132,7 +132,6 @@ m("C20", "window-test-off-by-one", "proxy/htmlfilter.go", "	for i := 0; i < cnt;
 m("C20", "spliced-text-kept-as-utf8", "proxy/htmlfilter.go", "	b, err = proxyutil.EncodeLatin1(modifiedBody)\n", "	if index == -1 {\n		b, err = proxyutil.EncodeLatin1(modifiedBody)\n	} else {\n		b, err = []byte(modifiedBody), nil\n	}\n")
 m("C20", "old-content-length-kept", "proxy/htmlfilter.go", "	res.ContentLength = int64(len(b))\n", "	if index == -1 {\n		res.ContentLength = int64(len(b))\n	}\n")
 m("C20", "content-encoding-kept", "proxy/htmlfilter.go", '	res.Header.Del("Content-Encoding")\n', "")
-m("C20", "index-on-lowercased-copy", "proxy/htmlfilter.go", "	index := findBodyInjectionIndex(body)", "	index := findBodyInjectionIndex(strings.ToLower(body))")
 
 def main():
     only = set(sys.argv[1:])
